@@ -40,8 +40,8 @@ func init() {
 			// decoding under concurrency over the real transport: the workload of C08's hammer phase (every result compared with the
 			// reference decoding of the reply to its own request)
 			b = append(b, Batch{Mode: "hammer", RunAs: "C08", Keys: []string{"crossed-reply", "panic"}, Timeout: 30 * time.Minute, Procs: 8})
+			b = append(b, Batch{Mode: "hammer", RunAs: "C08", Keys: []string{"crossed-reply", "panic"}, Race: true, Timeout: 30 * time.Minute, Procs: 8}) // + the race detector on the receive path
 			if tier == "thorough" {
-				b = append(b, Batch{Mode: "hammer", RunAs: "C08", Keys: []string{"crossed-reply", "panic", "race"}, Race: true, Timeout: 30 * time.Minute, Procs: 8})
 				return append(b, zoneBatches(0, "tz", 20*time.Minute)...)
 			}
 			for _, z := range []string{"America/New_York", "Europe/London", "America/Santiago", "Australia/Lord_Howe", "Asia/Beirut", "Pacific/Apia"} {
@@ -69,7 +69,12 @@ func init() {
 func init() {
 	specs["C07"] = &Spec{ID: "C07", Level: "exploration", Parallel: 8,
 		Assumptions: []string{hookAssumption, "Wiegand-26 = decimal FFFNNNNN, at most 8 digits, F<=255, N<=65535; unknown card formats match nothing"},
-		Plan:        func(tier string) []Batch { return same(n(tier, 8, 16), Batch{Timeout: 40 * time.Minute}) }}
+		Plan: func(tier string) []Batch {
+			b := same(n(tier, 8, 16), Batch{Timeout: 40 * time.Minute})
+			// "a call is rejected only for these reasons": valid calls that had to wait their turn for a fixed bind port on the real
+			// transport must still be sent (the port-queue phase of C09's workload)
+			return append(b, Batch{Mode: "port-queue", RunAs: "C09", Keys: []string{"failed-without-asking", "early-timeout-after-queueing", "not-served-in-turn", "panic"}, Timeout: 20 * time.Minute, Procs: 8})
+		}}
 }
 
 var currentSeed uint64 = 1
